@@ -17,6 +17,9 @@ import (
 
 const c12Watchdog = 8 * time.Second
 
+// c12Progress counts the re-entrant sends of the scenario that is running (nil outside gated scenarios).
+var c12Progress func() int64
+
 // reentry describes what a node callback does.
 type reentry struct {
 	b          *eventlogger.Broker
@@ -186,6 +189,18 @@ func underWatchdog(run *rt.Run, sc c12Scenario, what string, frame string, f fun
 		}
 		run.Violation("deadlock:"+sc.Op+"/"+sc.Callback+"/writer="+wk, what+" did not return: its goroutine is parked forever at "+s1,
 			map[string]any{"scenario": sc.String(), "goroutine": raw, "parked_library_goroutines": all})
+	} else if c12Progress != nil {
+		// not parked: is the library calling back into the harness over and over? Every such call returned
+		// (the harness never blocks), so the nodes do return and the Broker call still does not end
+		n1 := c12Progress()
+		time.Sleep(300 * time.Millisecond)
+		n2 := c12Progress()
+		if n2 > n1 && n2 > 5000 {
+			run.Violation("livelock:"+sc.Op+"/"+sc.Callback, fmt.Sprintf("%s did not return within %v: the library keeps re-entering Send (%d calls so far, %d more in the last 300 ms, every one of them returned) for %d pending group(s)", what, c12Watchdog, n2, n2-n1, sc.Pending),
+				map[string]any{"scenario": sc.String(), "goroutine": raw})
+		} else {
+			run.Inconclusive("call did not return within the watchdog but is not provably parked: " + sc.String() + " " + what + " state=" + s2)
+		}
 	} else {
 		run.Inconclusive("call did not return within the watchdog but is not provably parked: " + sc.String() + " " + what + " state=" + s2)
 	}
@@ -221,6 +236,8 @@ func runC12Scenario(run *rt.Run, sc c12Scenario) {
 	var clock int64 = 1_700_000_000
 	now := func() time.Time { return time.Unix(atomic.LoadInt64(&clock), 0) }
 	ps := &parkingSender{re: re, fail: int32(sc.FailSend)}
+	c12Progress = func() int64 { return int64(atomic.LoadInt32(&ps.sends)) }
+	defer func() { c12Progress = nil }()
 	gf := &gated.Filter{Broker: ps, NowFunc: now, Expiration: 10 * time.Second}
 	gatedMode := strings.HasPrefix(sc.Callback, "gated")
 	if gatedMode {
@@ -360,7 +377,10 @@ func TestC12(t *testing.T) {
 	// gated flushes whose re-entrant Send reports an error (expiry during Process, Close during removal)
 	for _, w := range []bool{false, true} {
 		for p := 1; p <= 3; p++ {
-			for f := 1; f <= p; f++ {
+			for f := 1; f <= p+1; f++ {
+				if f == p+1 {
+					f = 1 << 30 // every re-entrant send fails, however often it is retried
+				}
 				scs = append(scs,
 					c12Scenario{Op: "send", Callback: "gated-expire", Writer: w, Pending: p, FailSend: f},
 					c12Scenario{Op: "rmpipenodes", Callback: "gated-close", Writer: w, Pending: p, FailSend: f},
